@@ -45,7 +45,7 @@ fn data_len(shape: Shape) -> usize {
     }
 }
 
-fn body(c: &Case) -> Result<(), String> {
+pub fn body(c: &Case) -> Result<(), String> {
     let (tx, rx) = ipc::channel::<Msg>().map_err(|e| e.to_string())?;
     let (ntx, nrx) = ipc::channel::<u32>().map_err(|e| e.to_string())?;
     let len = data_len(c.shape);
@@ -117,7 +117,7 @@ fn body(c: &Case) -> Result<(), String> {
     }
 }
 
-fn cfg_of(c: &Case) -> Cfg {
+pub fn cfg_of(c: &Case) -> Cfg {
     Cfg { sched: true, trace: true, fake_sndbuf: c.fake_sndbuf, enobufs_mask: c.mask, ..Default::default() }
 }
 
